@@ -85,6 +85,15 @@ func (c *checkSchema) checkType(name string, typ schema.Type, ss map[string]sche
 			if !documentError.HasFile() {
 				documentError.SetFile(typ.RootFile())
 			}
+			// An unnamed type (a rule set of an "or" rule, a member of a type
+			// shortcut) is named by an address: the error names the user type
+			// whose text it stands in, if that is one.
+			if name[0] == '#' {
+				name = ""
+				if f := typ.RootFile(); f != nil && len(f.Name()) > 0 && f.Name()[0] == '@' {
+					name = f.Name()
+				}
+			}
 			documentError.SetIncorrectUserType(name)
 			panic(documentError)
 		}
